@@ -23,6 +23,27 @@ async fn replay_verify_data() {
     // a listed file that does not exist
     let mut d = data(&sha("content c")); d.insert(PathBuf::from("missing"), sha("x"));
     assert!(AncillaryFilesManifest::new_without_signature(d).verify_data(&dir).await.is_err(), "a listed but missing file is accepted");
+    // a listed path that is a DIRECTORY on disk (its unlisted content would be moved along with it)
+    std::fs::create_dir_all(dir.join("ledger/737")).unwrap();
+    write_file(&dir.join("ledger/737/state"), "unsigned state");
+    let mut d = data(&sha("content c")); d.insert(PathBuf::from("ledger/737"), sha("whatever"));
+    assert!(AncillaryFilesManifest::new_without_signature(d).verify_data(&dir).await.is_err(), "a listed path that is a DIRECTORY (carrying unlisted files) is accepted");
     // the hash of ANOTHER listed file
     assert!(AncillaryFilesManifest::new_without_signature(data(&sha("content a"))).verify_data(&dir).await.is_err(), "a file carrying the hash of another listed file is accepted");
+}
+
+
+/// the signed hash covers the FULL relative path of every entry: relocating an entry (other separators, other directory) under
+/// the same file hashes must change the manifest hash, as must reordering hashes between entries
+#[test]
+fn replay_compute_hash() {
+    let h = |pairs: &[(&str, &str)]| AncillaryFilesManifest::new_without_signature(pairs.iter().map(|(p, v)| (PathBuf::from(p), v.to_string())).collect()).compute_hash();
+    let (a, b) = (sha("a"), sha("b"));
+    let genuine = h(&[("ledger/737", &a), ("immutable/00002.chunk", &b)]);
+    assert_eq!(genuine, h(&[("immutable/00002.chunk", &b), ("ledger/737", &a)]), "the manifest hash depends on insertion order");
+    for relocated in [[("ledger737", a.as_str()), ("immutable/00002.chunk", b.as_str())], [("ledger/737", a.as_str()), ("immutable00002.chunk", b.as_str())], [("l/edger737", a.as_str()), ("immutable/00002.chunk", b.as_str())]] {
+        assert!(genuine != h(&relocated), "a manifest whose entry was RELOCATED to {:?} has the same (signed) hash as the genuine one", relocated);
+    }
+    assert!(genuine != h(&[("ledger/737", &b), ("immutable/00002.chunk", &a)]), "exchanging the hashes of two entries does not change the manifest hash");
+    assert!(genuine != h(&[("ledger/737", &a)]), "dropping an entry does not change the manifest hash");
 }
